@@ -55,6 +55,8 @@ CONSTANTS Sizes,      \* <<s1, .., sN>>, 2 <= N <= 5, sizes 1..3
           Fuse,       \* BOOLEAN: also enumerate one fused pair  prop=(d1, d2)
           MaskFam,    \* "all" (every subset of cells null; cells <= 12) | "struct"
           XVar,       \* BOOLEAN (lines): x is a data variable linked along the x dim
+          XDeps,      \* sequence over {"all", "line", "one"}: the dims the x variable has - all of y's, only the
+                      \* line (xlink) dim, or the line dim and the first mappable dim   (<<"all">> unless XVar)
           Orders,     \* sequence over {"none", "rev", "sub"}: explicit *_order for plain mapped dims
           Joins,      \* sequence of BOOLEAN: join_across_missing
           Aggs,       \* sequence over {"none", "all", "one"} (lines) / {"auto", "all"} (heat)
@@ -62,7 +64,7 @@ CONSTANTS Sizes,      \* <<s1, .., sN>>, 2 <= N <= 5, sizes 1..3
           Errs,       \* sequence over {"q", "std", "stderr"}   (passed through; spread bands are not lines)
           Pals,       \* sequence of BOOLEAN: palette given      (passed through)
           Dens,       \* sequence of BOOLEAN: bins_density
-          Bins,       \* sequence over {"auto", "n4", "nN", "e1", "e3", "eu"} (hist) / <<"na">>
+          Bins,       \* sequence over {"auto", "n4", "nN", "e1", "e3", "eu", "en"} (hist) / <<"na">>
           HistAll,    \* BOOLEAN (hist): also assignments that leave no dim to bin over (each slice one sample)
           Stride, Sub, Seed, \* sampling: keep 1/Sub of the assignments and 1/Stride of the case numbers
           Bug         \* "none" | "domBeforeDrop" | "swapRowCol" | "maskYOnly" | "joinInverted"
@@ -123,6 +125,12 @@ Code(c, t) == IF Len(t) = 1 THEN Idx(c, t[1]) ELSE 4 * Idx(c, t[1]) + Idx(c, t[2
 Contrib(t, code) == IF Len(t) = 1 THEN (code - 1) * Strd[t[1]]
                     ELSE ((code \div 4) - 1) * Strd[t[1]] + ((code % 4) - 1) * Strd[t[2]]
 
+(* the cell obtained from c by putting every dim outside D at index 1: what a variable that only has the    *)
+(* dims D sees of cell c                                                                                   *)
+RECURSIVE ProjFrom(_, _, _)
+ProjFrom(c, D, d) == IF d > N THEN 0 ELSE (IF d \in D THEN (Idx(c, d) - 1) * Strd[d] ELSE 0) + ProjFrom(c, D, d + 1)
+Proj(c, D) == ProjFrom(c, D, 1)
+
 -----------------------------------------------------------------------------
 (* Masks *)
 NullBits(m) == {c \in Cells : (m \div Pow2[c]) % 2 = 1}
@@ -156,7 +164,7 @@ NullOf(m) == IF MaskFam = "all" THEN NullBits(m) ELSE StructNull(m)
 NXMask == IF XVar THEN 1 + 3 * NCells ELSE 1      \* x-variable: nothing | one cell | one line | one coordinate
 
 (* mixed-radix numbering of (mask, x mask, options) *)
-Radix == <<NMask, NXMask, Len(Joins), Len(Aggs), Len(Methods), Len(Errs), Len(Pals), Len(Dens), Len(Bins), Len(Orders)>>
+Radix == <<NMask, NXMask, Len(Joins), Len(Aggs), Len(Methods), Len(Errs), Len(Pals), Len(Dens), Len(Bins), Len(Orders), Len(XDeps)>>
 WeightR[k \in 1..(Len(Radix) + 1)] == IF k = 1 THEN 1 ELSE WeightR[k - 1] * Radix[k - 1]
 Weight == TLCEval([k \in 1..(Len(Radix) + 1) |-> WeightR[k]])
 Total == Weight[Len(Radix) + 1]
@@ -195,11 +203,17 @@ OrdSeq(kind, s) == IF kind = "rev" THEN [q \in 1..s |-> s + 1 - q]
 MkInp(ro, fz, M) ==
     LET pm0 == PM0(ro, fz)
         ok == Orders[Digit(M, 10) + 1]
+        xk == XDeps[Digit(M, 11) + 1]
+        xd == IF ~XVar \/ xk = "all" THEN Dims ELSE IF xk = "line" THEN {XD} ELSE {XD, MDk(1)}
     IN  [pm    |-> pm0,
          ordd  |-> [d \in Dims |-> IF \E p \in Props : pm0[p] = <<d>> THEN OrdSeq(ok, Sizes[d]) ELSE <<>>],
          ordk  |-> ok,
          ynull |-> NullOf(Digit(M, 1)),
-         xnull |-> IF XVar THEN StructNull(Digit(M, 2)) ELSE {},
+         xdims |-> xd,
+         \* the x variable is null at cell c iff it is null at what it sees of c
+         xnull |-> IF XVar THEN LET raw == {Proj(j, xd) : j \in StructNull(Digit(M, 2))}
+                                IN  {c \in Cells : Proj(c, xd) \in raw}
+                   ELSE {},
          join  |-> Joins[Digit(M, 3) + 1],
          agg   |-> Aggs[Digit(M, 4) + 1],
          meth  |-> Methods[Digit(M, 5) + 1],
@@ -212,7 +226,7 @@ MkInp(ro, fz, M) ==
 -----------------------------------------------------------------------------
 (* Values *)
 YVal(c) == c + 1            \* y (lines), z (heat)
-XVal(c) == 1000 + c         \* x as a data variable
+XVal(c, D) == 1000 + Proj(c, D)   \* x as a data variable that has the dims D
 HVal(c) == 2 * c            \* histogram samples (even; explicit edges are odd)
 
 Kth(S, i) == CHOOSE v \in S : Cardinality({w \in S : w < v}) = i - 1
@@ -242,6 +256,9 @@ BinsFor(kind, V, H) ==
     IN  CASE kind = "e1" -> [e0 |-> -1, w |-> 2, q |-> 0, den |-> 1, nb |-> NCells, edges |-> TRUE]
           [] kind = "e3" -> [e0 |-> -1, w |-> 6, q |-> 0, den |-> 1, nb |-> (NCells + 2) \div 3, edges |-> TRUE]
           [] kind = "eu" -> [e0 |-> -1, w |-> 0, q |-> 1, den |-> 1, nb |-> NbUnequal, edges |-> TRUE]
+          \* "en": explicit edges narrower than the data (samples are 0 .. 2 NCells - 2): samples outside are not counted
+          [] kind = "en" -> [e0 |-> 2 * (NCells \div 4) - 1, w |-> 4, q |-> 0, den |-> 1,
+                             nb |-> Max({1, NCells \div 4}), edges |-> TRUE]
           [] OTHER -> [e0 |-> Min(V) * nbi, w |-> Max(V) - Min(V), q |-> 0, den |-> nbi, nb |-> nbi, edges |-> FALSE]
 Edge(b, k) == b.e0 + k * b.w + b.q * k * (k + 1)
 BinOf(b, v) == LET x == v * b.den
@@ -250,9 +267,12 @@ BinOf(b, v) == LET x == v * b.den
                    ELSE CHOOSE k \in 1..b.nb : Edge(b, k - 1) <= x /\ x < Edge(b, k)
 (* a sample exactly on an interior edge computed by np.linspace: either neighbouring bin is acceptable *)
 BinTie(b, V) == (~b.edges) /\ \E v \in V : LET u == v * b.den - b.e0 IN u % b.w = 0 /\ u > 0 /\ u < b.w * b.nb
-(* points <<centre num, centre den, y num, y den>>: counts, or count / (n * width of that bin) *)
-HistPts(b, V, density) ==
-    LET n == Cardinality(V)
+(* the samples np.histogram counts at all: those within [first edge, last edge] *)
+InBins(b, V) == {v \in V : Edge(b, 0) <= v * b.den /\ v * b.den <= Edge(b, b.nb)}
+(* points <<centre num, centre den, y num, y den>>: counts, or count / (n * width of that bin), n = samples counted *)
+HistPts(b, V0, density) ==
+    LET V == InBins(b, V0)
+        n == Cardinality(V)
     IN  [k \in 1..b.nb |->
             LET c == Cardinality({v \in V : BinOf(b, v) = k})
                 wk == Edge(b, k) - Edge(b, k - 1)
@@ -283,7 +303,7 @@ OLinePts(i, b, F, agged) ==
     LET allp == [xi \in 1..Sizes[XD] |->
                     LET col == {b + f : f \in {g \in F : Idx(g, XD) = xi}}
                         one == CHOOSE c \in col : TRUE
-                    IN  (IF ~XVar THEN <<xi, 1>> ELSE IF one \in i.xnull THEN RNull ELSE <<XVal(one), 1>>)
+                    IN  (IF ~XVar THEN <<xi, 1>> ELSE IF one \in i.xnull THEN RNull ELSE <<XVal(one, i.xdims), 1>>)
                         \o YAt(col, i.ynull, agged, i.meth)]
     IN  IF i.join THEN SelectSeq(allp, LAMBDA p : p[2] # 0 /\ p[4] # 0) ELSE allp
 OMesh(i, b, F, agged) ==
@@ -326,7 +346,8 @@ Prepare ==
 Cross(a, b) == [k \in 1..(Len(a) * Len(b)) |-> 4 * a[(k - 1) \div Len(b) + 1] + b[((k - 1) % Len(b)) + 1]]
 Without(sq, S) == SelectSeq(sq, LAMBDA u : u \notin S)
 (* a coordinate survives dropna(dim, how="all") iff some data variable is non-null somewhere on it *)
-AnyVar(c) == (c \notin inp.ynull) \/ (XVar /\ c \notin inp.xnull)
+(* (Dataset.dropna(dim) only looks at the variables that have dim) *)
+AnyVar(c, t) == (c \notin inp.ynull) \/ (XVar /\ Range(t) \cap inp.xdims # {} /\ c \notin inp.xnull)
 
 (* (\E v \in {e} : ..) binds v to the value of e, evaluated once - TLC does not cache LET inside actions *)
 InitMapped ==
@@ -336,7 +357,7 @@ InitMapped ==
        \E start \in {IF Len(t) = 2 THEN Cross(crd[<<t[1]>>], crd[<<t[2]>>]) ELSE crd[t]} :
        \E sel \in {IF Len(t) = 1 /\ inp.ordd[t[1]] # <<>> THEN inp.ordd[t[1]] ELSE start} :            \* ds.sel({dim: order})
        \E live1 \in {{c \in live : Code(c, t) \in Range(sel)}} :
-       \E has \in {{Code(c, t) : c \in {c \in live1 : AnyVar(c)}}} :
+       \E has \in {{Code(c, t) : c \in {c \in live1 : AnyVar(c, t)}}} :
        \E kept \in {SelectSeq(sel, LAMBDA v : v \in has)} :                                          \* dropna(dim, how="all")
            /\ cur' = cur1
            /\ crd' = [u \in Range(cur1) |-> IF u = t THEN kept ELSE crd[u]]
@@ -404,7 +425,7 @@ DrawNext ==
                \E allp \in {[xi \in 1..Sizes[XD] |->
                                LET col == {base + f : f \in {g \in offs : Idx(g, XD) = xi}}
                                    one == CHOOSE c \in col : TRUE
-                               IN  (IF ~XVar THEN <<xi, 1>> ELSE IF one \in inp.xnull THEN RNull ELSE <<XVal(one), 1>>)
+                               IN  (IF ~XVar THEN <<xi, 1>> ELSE IF one \in inp.xnull THEN RNull ELSE <<XVal(one, inp.xdims), 1>>)
                                    \o YAt(col, inp.ynull, aggd # {}, inp.meth)]} :
                LET good(p) == p[4] # 0 /\ (Bug = "maskYOnly" \/ p[2] # 0)                  \* mask
                    anyg == \E j \in DOMAIN allp : good(allp[j])
@@ -421,8 +442,9 @@ DrawNext ==
                IN  draws' = Append(draws, rec(mesh, FALSE))
            ELSE
                \E V \in {{HVal(c) : c \in {base + f : f \in offs} \ inp.ynull}} :
-                   draws' = IF inp.dens /\ V = {} THEN draws     \* the density of nothing is NaN everywhere: skipped
-                             ELSE Append(draws, rec(HistPts(hb, V, inp.dens /\ Bug # "countsForDensity"), V = {}))
+               \E Vin \in {InBins(hb, V)} :
+                   draws' = IF inp.dens /\ Vin = {} THEN draws   \* the density of nothing is NaN everywhere: skipped
+                             ELSE Append(draws, rec(HistPts(hb, V, inp.dens /\ Bug # "countsForDensity"), Vin = {}))
     /\ it' = it + 1
     /\ UNCHANGED <<inp, pc, pi, pm, cur, crd, live, dom, unm, aggd, hb, offs, verdict>>
 
@@ -433,8 +455,9 @@ Judge ==
        \E sel \in {OSelCells(inp)} :                                            \* cells selected by explicit orders
        \E F \in {{g \in Cells : \A d \in sdims : Idx(g, d) = 1}} :                \* offsets spanning a slice
        \E slices \in {{b \in sel : \A d \in Dims \ sdims : Idx(b, d) = 1}} :
-       \E hasdata \in {{b \in slices : \E f \in F : OGood(inp, b + f)}} :
        \E bins \in {IF Mode = "hist" THEN BinsFor(inp.bins, OSamples(inp), DimsProd(OUnm(inp))) ELSE hb} :
+       \E hasdata \in {{b \in slices : \E f \in F :
+                            (OGood(inp, b + f) /\ ((Mode = "hist") => (InBins(bins, {HVal(b + f)}) # {})))}} :
        \E agged \in {OAgg(inp) # {}} :
        LET DI == DOMAIN draws
            mapped == {p \in Props : pm[p] # <<>>}
@@ -491,7 +514,7 @@ EmitCase ==
         PrintT(<<"CASE", ToJson(
             [sizes |-> Sizes, mode |-> Mode, xvar |-> XVar,
              pm |-> inp.pm, ordd |-> inp.ordd, ordk |-> inp.ordk,
-             ynull |-> inp.ynull, xnull |-> inp.xnull,
+             ynull |-> inp.ynull, xnull |-> inp.xnull, xdims |-> inp.xdims,
              join |-> inp.join, agg |-> inp.agg, meth |-> inp.meth, err |-> inp.err, pal |-> inp.pal,
              dens |-> inp.dens, bins |-> inp.bins, num |-> inp.num, anum |-> inp.anum,
              aggd |-> aggd, eff |-> pm, dom |-> dom, hb |-> hb,
